@@ -897,7 +897,11 @@ def set_schema(expression: exp.Expression, current_database: str | None) -> exp.
 
             schema = expression.this.name
             return exp.Command(
-                this="SET", expression=exp.Literal.string(f"schema = '{db_name}.{schema}'"), set_schema=schema
+                this="SET",
+                expression=exp.Literal.string(f"schema = '{db_name}.{schema}'"),
+                set_schema=schema,
+                # when qualified, the database changes too
+                set_schema_database=db.name if db else None,
             )
 
     return expression
